@@ -1145,6 +1145,21 @@ func buildShape(u *universe, sc script, nodes []string) (map[string][]*ctx, map[
 		for i := 0; i < size/3; i++ {
 			init[b] = append(init[b], u.add(fmt.Sprintf("wb%d", i), []string{top.name}, int(top.lc)+1, true, false))
 		}
+	case "lowwide": // an undecodable difference on a LOW page (the first one when deep = 0) while the other node is pages ahead:
+		// A holds `size` siblings directly above the common part, B a chain of 600 from the same top (one or two pages higher)
+		top := root
+		init[a] = []*ctx{root}
+		init[b] = []*ctx{root}
+		if sc.Deep > 0 {
+			common := chain("c", root, sc.Deep)
+			top = common[len(common)-1]
+			init[a] = append(init[a], common...)
+			init[b] = append(init[b], common...)
+		}
+		for i := 0; i < size; i++ {
+			init[a] = append(init[a], u.add(fmt.Sprintf("wa%d", i), []string{top.name}, int(top.lc)+1, true, false))
+		}
+		init[b] = append(init[b], chain("b", top, 600)...)
 	default: // "mixed": common prefix, both sides continue
 		common := chain("c", root, size/2)
 		top := common[len(common)-1]
